@@ -28,7 +28,11 @@ import (
 	"golang.org/x/tools/go/ssa"
 )
 
-func scopeDisciplineRuleSSA(r *Run, rule string) {
+func scopeDisciplineRuleSSA(r *Run, rule string) { scopeDisciplineRuleFor(r, rule, nil) }
+
+// scopeDisciplineRuleFor: the same, for the roots that only selects (nil: all of them, and every writer of the scope
+// field must then be covered by some root).
+func scopeDisciplineRuleFor(r *Run, rule string, only func(root *ssa.Function) bool) {
 	w := r.W
 	ctxF := w.compilerField("ctx")
 	ct := w.compilerType()
@@ -130,6 +134,9 @@ func scopeDisciplineRuleSSA(r *Run, rule string) {
 	}
 	sort.Slice(roots, func(i, j int) bool { return roots[i].Pos() < roots[j].Pos() })
 	for _, fn := range roots {
+		if only != nil && !only(fn) {
+			continue
+		}
 		name := ssaName(fn)
 		pw := &pathWalker{inline: inline, unroll1: true, maxPaths: 100000, maxDepth: 5, runDefers: true}
 		pw.walk(fn)
@@ -302,6 +309,9 @@ func scopeDisciplineRuleSSA(r *Run, rule string) {
 	}
 	// every writer must have been judged in some root
 	for fn := range writer {
+		if only != nil {
+			break
+		}
 		top := fn
 		for top.Parent() != nil {
 			top = top.Parent()
